@@ -204,7 +204,31 @@ def correspondence(ctx):
                  "02-29 / 03-01 / 12-31 for every year 0000-9999, months 00-13 x days 00-32 for 126 years, and h 0-25 x m 0-61 x s 0-61. "
                  "ZONE BATCHES: the harness re-run as child processes with TZ=Etc/GMT+8, Etc/GMT-9, America/Los_Angeles, Asia/Kolkata "
                  "(70% instants within +-14 h of now, 30% the general mix), same oracle and model: the verdict must not depend on the host zone. "
-                 "non-trivial = every case whose verdict does not depend on the clock reading inside the widened bracket; distinct = distinct strings")
+                 "FUZZ: Go native coverage-guided fuzzing of VerifyLayoutExpiration (string used literally, or now+offset rendered in ten shapes of "
+                 "the proved grammar) against the oracle, as failing-input search. non-trivial = every case whose verdict does not depend on the clock reading inside the widened bracket; distinct = distinct strings")
+    # coverage-guided differential fuzzing of VerifyLayoutExpiration against the harness's oracle on the proved shape
+    # (harness/c06/fuzz_test.go): the fuzzer sees the library's coverage, so a fast path, a memo or a comparison in
+    # another domain is a branch it tries to reach; "@k" inputs move a well-formed timestamp around now (search only)
+    secs = 12 if ctx.tier == 'quick' else 180
+    runs = [(None, secs)] + ([('Etc/GMT+8', 45), ('Etc/GMT-9', 45)] if ctx.tier == 'thorough' else [])
+    corr.extra['fuzz_seconds'] = sum(x[1] for x in runs)
+    for tz, sec in runs:
+        if tz and not os.path.exists(os.path.join('/usr/share/zoneinfo', tz)):
+            continue
+        try:
+            fz = ctx.go_fuzz('c06', 'FuzzExpiry', sec, env={'TZ': tz} if tz else None)
+        except V.BuildError as e:
+            deferred.append('fuzz: ' + str(e)[:600])
+            break
+        if fz:
+            kl = 'fuzz-expiry' + ('-tz' if tz else '')
+            corr.violations.append({'klass': kl, 'case': {'id': 'fuzz', 'klass': kl,
+                                                          'input': {'entry': 'fuzz', 'target': 'FuzzExpiry', 'tz': tz,
+                                                                    'go_fuzz_corpus_file': fz['corpus_file']}},
+                                    'impl': fz['message'], 'expected': 'the shape-and-instant oracle of harness/c06',
+                                    'what': 'coverage-guided differential fuzzing found an expiry on which VerifyLayoutExpiration differs from the oracle'
+                                            + (' (host zone TZ=%s)' % tz if tz else '')})
+            break
     # pipeline level: expired / undated layouts in otherwise accepting supply chains, both wrappers and both
     # entry points; no inspection may run (harness/e2e, focus c06; theorems in props/C06_pipeline.v)
     n = 40 if ctx.tier == 'quick' else 400
@@ -227,6 +251,13 @@ def correspondence(ctx):
 
 
 def replay(ctx, case):
+    inp = (case.get('case', case) or {}).get('input') or {}
+    if isinstance(inp, dict) and inp.get('entry') == 'fuzz':
+        print('failing input of the fuzz target %s (Go corpus file format):\n%s' % (inp.get('target'), inp.get('go_fuzz_corpus_file')))
+        print('re-run: save it as harness/c06/testdata/fuzz/%s/replay and run `%sgo test -tags verif -run %s/replay ./c06` in /verif/harness '
+              '("@k..." inputs are relative to the current time)' % (inp.get('target'), ('TZ=%s ' % inp['tz']) if inp.get('tz') else '', inp.get('target')))
+        print(case.get('impl', ''))
+        return
     if (case.get('klass') or '').startswith('c06/'):
         return e2e.replay(ctx, case)
     binp = ctx.go_build('c06')
